@@ -223,7 +223,7 @@ def main():
             na.append(dict(property_id=pid, reason="check not built yet in this session (work in progress; Lean model + theorems planned in DESIGN.md section 3/%s)" % pid))
     m = dict(
         version=1,
-        setup_cmd="python3 translator/py2lean.py /repo lean/LadimModel/Generated && cd lean && lake build LadimModel driver LadimProofs 2>&1 | tail -5",
+        setup_cmd="/venv/bin/python translator/py2lean.py /repo lean/LadimModel/Generated && cd lean && lake build LadimModel driver LadimProofs 2>&1 | tail -5",
         hooks=dict(guard="LADIM_PLUGINS_VERIF", enable="no source hooks are needed: checks import /repo in-process and patch numpy.random from the harness; LADIM_PLUGINS_VERIF=1 is set by ./check for completeness",
                    baseline_off_cmd="cd /repo && /venv/bin/python -m pytest -ra -q -p no:cacheprovider --timeout=900 --continue-on-collection-errors",
                    source_commits=[], add_only=True),
